@@ -13,15 +13,17 @@ SEG = 'tracklib.algo.segmentation'
 TRACK = 'tracklib.core.track.Track'
 
 EXPLANATION = (
-    "Static analysis of segmentation() / split() / Track.extract: the per-observation fold of the threshold tests "
-    "is evaluated on the finite case domain {below, equal, above, NaN}^n for n = 1..3 features and both modes "
-    "(marker == any-exceeds in AND mode, all-exceed in OR mode, NaN ignored, equality is not exceeding); in the "
-    "marker arm of split() every path of the loop body is examined: a piece is cut exactly at a marked "
-    "observation, it is [begin, i], the next piece begins at i+1, unmarked observations cut nothing, the tail is "
-    "[begin, size-1] and is emitted only if something was marked; Track.extract copies the inclusive index range "
-    "[id_ini, id_fin] on every path (the convention split() relies on).")
-ASSUMPTIONS = ["limit = 0 (no piece is filtered out by length)"]
-TECHNIQUE = "finite case domain over comparison outcomes (F4), tiling of index intervals on loop-body paths (F3/F6)"
+    "Static analysis of segmentation() / split() / Track.extract by interpretation of their bodies (tlint.orders AST interpreter over "
+    "abstract tracks; nothing is imported or executed; helpers extracted by a refactoring are followed).  (M/N) segmentation() on the "
+    "finite case domain {below, equal, above, NaN}^n of the tested values relative to their own, pairwise distinct thresholds, n = 1..3, "
+    "both modes, with a second all-below observation: marker == any-exceeds in AND mode, all-exceed in OR mode, NaN ignored, equality is "
+    "not exceeding, no leak between observations.  (T/E) split() on every 0/1 marker vector of length 1..5 (62 vectors): the pieces, "
+    "taken in order, contain every observation exactly once; each ends at a marked observation and holds no other; nothing is emitted "
+    "when nothing is marked.  (X) the repository's Track class itself is interpreted for extract(a, b), 0 <= a <= b+1 <= 4: inclusive "
+    "range, empty for b == a-1 (the call split() makes after a marked last observation), feature table carried over as a copy, source "
+    "untouched.")
+ASSUMPTIONS = ["limit = 0 (no piece is filtered out by length)", "bounded: at most 3 tested features, marker vectors up to length 5, tracks of 4 observations for extract"]
+TECHNIQUE = "abstract interpretation of the function bodies on finite case domains: comparison outcomes x NaN (F4), all marker vectors up to a bound (F3), index pairs (F3)"
 
 NAN = float('nan')
 
@@ -33,8 +35,105 @@ def vr(v):
     return repr(v)
 
 
+def _track_model(ctx, fn):
+    """abstract track for segmentation()/split(): named feature columns, inclusive extract() recording the index interval;
+    any other Track method is interpreted from the repository's own source with this object as self"""
+    from .. import absint
+
+    class Piece(orders.PyStub):
+        isa = ('Track',)
+
+        def __init__(self, a, b, n):
+            self.a, self.b = a, b
+            self.indices = list(range(a, b + 1)) if isinstance(a, int) and isinstance(b, int) else None
+            if self.indices is None or any(k < 0 or k >= n for k in self.indices):
+                raise IndexError('extract(%r, %r) on a track of %d observations' % (a, b, n))
+            self.uid = None
+
+        def setUid(self, u):
+            self.uid = u
+
+        def length(self):
+            return float(len(self.indices))
+
+        def size(self):
+            return len(self.indices)
+
+        def __len__(self):
+            return len(self.indices)
+
+    class TrackS(orders.PyStub):
+        isa = ('Track',)
+        repo_methods = absint.methods_of(ctx, TRACK)
+        repo_funcs = fn
+
+        def __init__(self, n, feats):
+            self.n = n
+            self.feats = {k: list(v) for k, v in feats.items()}
+            self.uid, self.tid = 'U', 'T'
+
+        def size(self):
+            return self.n
+
+        def __len__(self):
+            return self.n
+
+        def hasAnalyticalFeature(self, name):
+            return name in self.feats
+
+        def getListAnalyticalFeatures(self):
+            return list(self.feats)
+
+        def getObsAnalyticalFeature(self, name, i):
+            return self.feats[name][i]
+
+        def getObsAnalyticalFeatures(self, names, i):
+            return [self.feats[k][i] for k in names]
+
+        def getAnalyticalFeature(self, name):
+            return list(self.feats[name])
+
+        def getAnalyticalFeatures(self, names):
+            return [list(self.feats[k]) for k in names]
+
+        def createAnalyticalFeature(self, name, val=0.0):
+            if name in self.feats:
+                return
+            self.feats[name] = list(val) if isinstance(val, list) else [val] * self.n
+
+        def setObsAnalyticalFeature(self, name, i, v):
+            self.feats[name][i] = v
+
+        def __getitem__(self, k):
+            if isinstance(k, tuple) and len(k) == 2:
+                return self.feats[k[0]][k[1]]
+            if isinstance(k, str):
+                return list(self.feats[k])
+            raise orders.Unsupported('track[%r]' % (k,))
+
+        def extract(self, a, b):
+            return Piece(a, b, self.n)
+
+    class Coll(orders.PyStub):
+        isa = ('TrackCollection',)
+
+        def __init__(self, *a_):
+            self.pieces = []
+
+        def addTrack(self, t):
+            self.pieces.append(t)
+
+        def size(self):
+            return len(self.pieces)
+
+        def __len__(self):
+            return len(self.pieces)
+    return TrackS, Piece, Coll
+
+
 def rule_M(ctx):
-    """C11.M / C11.N marker = dual fold of value > threshold, NaN ignored"""
+    """C11.M / C11.N marker = dual fold of value > threshold, NaN ignored - segmentation() interpreted on the finite case domain"""
+    from .. import absint
     f = ctx.prog.func(SEG + '.segmentation')
     m = ctx.prog.module(SEG)
     consts = {}
@@ -43,217 +142,139 @@ def rule_M(ctx):
         if not isinstance(v, ast.Constant):
             raise anchor_error('%s not found' % k, SEG)
         consts[k] = v.value
-    body = body_nodocstring(f)
-    loops = [s for s in body if isinstance(s, ast.For)]
-    if len(loops) != 1:
-        raise shape_error('segmentation(): observation loop not found', f.loc())
-    lo = loops[0]
-    pre = body[:body.index(lo)]
+    fn = absint.funcs(ctx, SEG, {'isnan': lambda x: isinstance(x, float) and math.isnan(x)})
+    fn['__globals__'].update({'NAN': NAN, 'sys.float_info.max': 1.0e308})
+    TrackS, _, _ = _track_model(ctx, fn)
     tr, afs, afo, thr, mode = f.params[:5]
-    vals = {'below': 5.0, 'equal': 10.0, 'above': 15.0, 'nan': NAN}
+    rel = {'below': -5.0, 'equal': 0.0, 'above': 5.0, 'nan': None}
     bad = []
     total = 0
     for mname, mval in consts.items():
         for n in (1, 2, 3):
-            for combo in itertools.product(vals, repeat=n):
+            thresholds = [10.0 * (k + 1) for k in range(n)]          # distinct thresholds: a value paired with the wrong one shows
+            for combo in itertools.product(rel, repeat=n):
                 names = ['f%d' % k for k in range(n)]
-                data = dict(zip(names, (vals[c] for c in combo)))
-                out = {}
-
-                class T:
-                    pass
-                funcs = {
-                    'getObsAnalyticalFeature': lambda name, i: data[name],
-                    'setObsAnalyticalFeature': lambda name, i, v: out.__setitem__('marker', v),
-                    'createAnalyticalFeature': lambda *a: None,
-                    'isnan': lambda x: isinstance(x, float) and math.isnan(x),
-                    'isinstance': None,
-                }
-                env = dict(consts)
-                env.update({tr: 'TRACK', afs: list(names), afo: 'OUT', thr: [10.0] * n, mode: mval,
-                            lo.target.id: 0, 'sys.float_info.max': 1.0e308})
+                # two observations: the case under test and an all-below one (a marker must not leak from one observation to the next)
+                cols = {nm: [NAN if rel[c] is None else thresholds[k] + rel[c], thresholds[k] - 5.0] for k, (nm, c) in enumerate(zip(names, combo))}
+                t = TrackS(2, cols)
                 try:
-                    _run(pre, env, funcs)
-                    orders.run_block(lo.body, env, funcs)
+                    orders.make_func(f.node, fn)(**{tr: t, afs: list(names), afo: 'OUT', thr: list(thresholds), mode: mval})
                 except orders.Unsupported as e:
-                    raise shape_error('segmentation() fold not interpretable: %s' % e, f.loc(lo))
+                    raise shape_error('segmentation() not interpretable: %s' % e, f.loc())
+                except (IndexError, KeyError, TypeError) as e:
+                    bad.append({'mode': mname, 'feature values vs threshold': list(combo), 'exception': '%s: %s' % (type(e).__name__, e)})
+                    continue
                 total += 1
                 live = [c for c in combo if c != 'nan']
                 if mname.endswith('AND'):
                     want = 1 if any(c == 'above' for c in live) else 0
                 else:
                     want = 1 if all(c == 'above' for c in live) else 0
-                got = out.get('marker')
-                if got != want and len(bad) < 6:
-                    bad.append({'mode': mname, 'feature values vs threshold': list(combo), 'marker': got, 'expected': want})
+                got = t.feats.get('OUT')
+                if (got is None or got[0] != want or got[1] != 0) and len(bad) < 6:
+                    bad.append({'mode': mname, 'feature values vs their thresholds (observation 0)': list(combo), 'thresholds': thresholds,
+                                'markers (observation 0, all-below observation 1)': got, 'expected': [want, 0]})
     ctx.check(not bad, 'C11.M', f,
-              'marker == 1 exactly where a tested feature exceeds its threshold (any in AND mode, all in OR mode; NaN '
+              'marker == 1 exactly where a tested feature exceeds ITS threshold (any in AND mode, all in OR mode; NaN '
               'ignored; a value equal to the threshold does not exceed it) on all %d cases' % total,
-              witness={'counter-examples': bad}, node=lo, key='fold')
+              witness={'counter-examples': bad}, node=f.node, key='fold')
     ctx.extra['fold_cases'] = total
-    r = Walker(f, loop_mode='skip').range_info(lo.iter, State())
-    ctx.check(r is not None and vr(r[0]) == '0' and vr(r[1]) == '%s.size()' % tr, 'C11.M', f,
-              'every observation receives a marker', witness={'range': unparse(lo.iter)}, node=lo, key='range')
-
-
-def _run(stmts, env, funcs):
-    """prologue of segmentation(): listify scalars (isinstance tests) - interpreted with list inputs"""
-    for s in stmts:
-        if isinstance(s, ast.If) and any(isinstance(n, ast.Call) and getattr(n.func, 'id', None) == 'isinstance'
-                                         for n in ast.walk(s.test)):
-            continue        # inputs are given as lists in the case domain
-        orders.run_block([s], env, funcs)
 
 
 def rule_T(ctx):
-    """C11.T / C11.E pieces tile the track and end at marked observations"""
+    """C11.T / C11.E pieces tile the track and end at marked observations - split() interpreted on every marker vector up to length 5"""
+    from .. import absint
     f = ctx.prog.func(SEG + '.split')
-    body = body_nodocstring(f)
     tr, src, limit = f.params[:3]
-    arm = None
-    for s in body:
-        if isinstance(s, ast.If) and 'isinstance(%s, str)' % src in unparse(s.test):
-            arm = s
-    if arm is None:
-        raise shape_error('split(): marker arm not found', f.loc())
-    loops = [s for s in arm.body if isinstance(s, ast.For)]
-    if len(loops) != 1:
-        raise shape_error('split(): marker loop not found', f.loc(arm))
-    lo = loops[0]
-    iv = lo.target.id
-    w = Walker(f, loop_mode='skip')
-    pre = [o for o in w.run(arm.body[:arm.body.index(lo)], State({limit: Rat.const(0)})) if o.kind == 'fall']
-    if len(pre) != 1:
-        raise shape_error('split(): prologue of the marker arm', f.loc(arm))
-    pst = pre[0].state
-    r = w.range_info(lo.iter, pst)
-    ctx.check(r is not None and vr(r[0]) == '0' and vr(r[1]) == '%s.size()' % tr and vr(r[2]) == '1', 'C11.T', f,
-              'every observation is examined once, in order', witness={'range': unparse(lo.iter)}, node=lo, key='range')
-    assigned = sorted(names_stored(lo.body))
-    st = pst.fork()
-    st.events = []
-    for v in assigned:
-        st.env[v] = Rat.atom(v + '@')
-    st.env[iv] = Rat.atom(iv)
-    outs = list(w.run(lo.body, st))
-    # the running start of the current piece: first argument of extract, affine in one loop-carried variable
-    bname = None
-    off = None
-    for o in outs:
-        for e in o.state.events:
-            if e.kind == 'call' and e.name == 'extract' and isinstance(e.args[0], Rat) and e.args[0].ispoly():
-                carried = [a for a in e.args[0].atoms() if a.endswith('@') and a[:-1] in assigned]
-                if len(carried) == 1 and e.args[0].n.degree_in(carried[0]) == 1 and e.args[0].n.coeff(carried[0], 1).isconst() \
-                        and e.args[0].n.coeff(carried[0], 1).constval() == 1:
-                    rest = e.args[0] - Rat.atom(carried[0])
-                    if rest.isconst():
-                        bname, off = carried[0][:-1], rest
-    if bname is None:
-        raise shape_error('split(): extract(<start of the piece>, i) not found', f.loc(lo))
-    start = lambda v: v + off
-    b0 = pst.env.get(bname)
-    ctx.check(isinstance(b0, Rat) and w.rel.is_zero(start(b0)), 'C11.T', f, 'the first piece starts at observation 0',
-              witness={'initial start': vr(start(b0)) if isinstance(b0, Rat) else vr(b0)}, node=lo, key='begin0')
-    marker = '%s.getObsAnalyticalFeature(%s, %s)' % (tr, src, iv)
-    n_cut = n_plain = 0
-    for o in outs:
-        calls = [e for e in o.state.events if e.kind == 'call' and e.name == 'extract']
-        adds = [e for e in o.state.events if e.kind == 'call' and e.name == 'addTrack']
-        marked = None
-        for c, _ in o.state.conds:
-            for cj in c.conjuncts():
-                if cj.kind == 'cmp' and cj.op in ('==', '!=') and {vr(cj.a), vr(cj.b)} == {marker, '1'}:
-                    marked = cj.op == '=='
-        pathtxt = [repr(c) for c, _ in o.state.conds]
-        bnew = o.state.env.get(bname)
-        if calls:
-            n_cut += 1
-            ctx.check(marked is True, 'C11.E', f, 'a piece is cut only at an observation whose marker is 1',
-                      witness={'path conditions': pathtxt}, node=calls[0].node, key='cut-guard')
-            a = calls[0].args
-            ctx.check(len(calls) == 1 and vr(calls[0].recv) == tr and isinstance(a[0], Rat) and
-                      w.rel.is_zero(a[0] - start(Rat.atom(bname + '@'))) and vr(a[1]) == iv, 'C11.T', f,
-                      'the piece cut at a marked observation i is [start of the piece, i]', witness={'extract': [vr(x) for x in a]},
-                      node=calls[0].node, key='piece')
-            ctx.check(isinstance(bnew, Rat) and w.rel.is_zero(start(bnew) - Rat.atom(iv) - Rat.const(1)), 'C11.T', f,
-                      'the next piece begins at i + 1 (no observation lost or duplicated)',
-                      witness={'next start': vr(start(bnew)) if isinstance(bnew, Rat) else vr(bnew), 'expected': '%s + 1' % iv}, node=calls[0].node, key='next-begin')
-            ctx.check(len(adds) == 1 and vr(adds[0].args[0]) == calls[0].value, 'C11.T', f,
-                      'the piece is added to the result (limit = 0)', witness={'adds': [repr(e) for e in adds]},
-                      node=calls[0].node, key='added')
-        else:
-            n_plain += 1
-            ctx.check(marked is False and isinstance(bnew, Rat) and vr(bnew) == bname + '@' and not adds, 'C11.E', f,
-                      'an unmarked observation cuts nothing and leaves the current piece open',
-                      witness={'path conditions': pathtxt, 'start after': vr(bnew)}, node=lo, key='plain')
-    if n_cut == 0 or n_plain == 0:
-        raise shape_error('split(): marked / unmarked paths not both found', f.loc(lo))
-    # tail: emitted exactly when some observation was marked, i.e. when the start is no longer 0
-    post = arm.body[arm.body.index(lo) + 1:]
-    seen_tail = False
-    emitted = {}
-    for sval in (0, 1, 2, 7):
-        st2 = pst.fork()
-        st2.events = []
-        st2.conds = []
-        st2.env[bname] = Rat.const(sval) - off
-        st2.env[limit] = Rat.const(0)
-        touts = [o for o in w.run(post, st2) if o.kind == 'fall']
-        if len(touts) != 1:
-            raise shape_error('split(): tail is not single-path for a given start', f.loc(arm))
-        o = touts[0]
-        calls = [e for e in o.state.events if e.kind == 'call' and e.name == 'extract']
-        adds = [e for e in o.state.events if e.kind == 'call' and e.name == 'addTrack']
-        emitted[sval] = bool(calls) and bool(adds)
-        if calls:
-            seen_tail = True
-            a = calls[0].args
-            ctx.check(isinstance(a[0], Rat) and w.rel.is_zero(a[0] - Rat.const(sval)) and isinstance(a[1], Rat) and
-                      w.rel.is_zero(a[1] - (Rat.atom('%s.size()' % tr) - Rat.const(1))), 'C11.T', f,
-                      'the last piece is [start, size-1]', witness={'extract': [vr(x) for x in a], 'start': sval}, node=calls[0].node, key='tail')
-            ctx.check(len(adds) == 1 and vr(adds[0].args[0]) == calls[0].value, 'C11.T', f, 'the tail piece is added to the result',
-                      witness={}, node=calls[0].node, key='tail-added')
-    wrong = {k: v for k, v in emitted.items() if v != (k != 0)}
-    ctx.check(not wrong, 'C11.E', f,
-              'the tail is emitted exactly when some observation was marked (start of the open piece != 0); nothing is emitted when nothing is marked',
-              witness={'start of the open piece -> tail emitted': emitted,
-                       'why': 'e.g. a track whose only marked observation is the first one: the piece [0] comes back but observations 1..n-1 are lost'},
-              node=arm, key='tail-guard')
-    if not seen_tail:
-        raise shape_error('split(): tail extract not found', f.loc(arm))
-    other = [n for n in ast.walk(arm) if isinstance(n, ast.Call) and getattr(n.func, 'attr', None) == 'extract']
-    ctx.check(len(other) == 2, 'C11.T', f, 'the marker arm cuts pieces at exactly two places (in the loop and for the tail)',
-              witness={'extract calls': len(other)}, node=arm, key='two-cuts')
+    fn = absint.funcs(ctx, SEG, {})
+    fn['__globals__'].update({'NAN': NAN})
+    TrackS, Piece, Coll = _track_model(ctx, fn)
+    fn['TrackCollection'] = lambda *a_: Coll()
+    bad_t = bad_e = None
+    total = 0
+    for n in range(1, 6):
+        for marks in itertools.product((0, 1), repeat=n):
+            t = TrackS(n, {'m': list(marks)})
+            try:
+                res = orders.make_func(f.node, fn)(t, 'm')
+            except orders.Unsupported as e:
+                raise shape_error('split() not interpretable: %s' % e, f.loc())
+            except (IndexError, KeyError, TypeError) as e:
+                res = '%s: %s' % (type(e).__name__, e)
+            total += 1
+            pieces = [p_.indices for p_ in res.pieces] if isinstance(res, Coll) and all(isinstance(p_, Piece) for p_ in res.pieces) else None
+            case = {'marker': list(marks), 'pieces (observation indices)': pieces if pieces is not None else repr(res)}
+            if not any(marks):
+                if pieces != [] and bad_e is None:
+                    bad_e = dict(case, expected='no piece (nothing is marked)')
+                continue
+            flat = [k for p_ in (pieces or []) for k in p_]
+            if (pieces is None or flat != list(range(n))) and bad_t is None:
+                bad_t = dict(case, why='taken in order the pieces must contain every observation exactly once, in the original order')
+            elif pieces is not None and bad_e is None:
+                nonempty = [p_ for p_ in pieces if p_]
+                if any(marks[p_[-1]] != 1 for p_ in nonempty[:-1]) or any(any(marks[k] for k in p_[:-1]) for p_ in nonempty):
+                    bad_e = dict(case, why='each piece ends at a marked observation (except possibly the last) and contains no other marked observation')
+    ctx.check(bad_t is None, 'C11.T', f, 'for every marker vector with a marked observation the pieces tile the track: every observation exactly once, in order (%d vectors, lengths 1..5)' % total,
+              witness=bad_t, node=f.node, key='tiling')
+    ctx.check(bad_e is None, 'C11.E', f, 'each piece ends at a marked observation, holds no other marked one, and nothing is emitted when nothing is marked',
+              witness=bad_e, node=f.node, key='cuts')
+    ctx.extra['split_cases'] = total
 
 
-def rule_X(ctx):
-    """C11.X Track.extract copies [id_ini, id_fin] inclusive on every path"""
+def rule_X(ctx, rule='C11.X'):
+    """Track.extract(a, b) returns exactly observations a..b (inclusive) in order with the feature table carried over as a copy -
+    the repository's Track class is interpreted on a 4-observation track for every 0 <= a <= b < 4"""
+    from .. import absint
     f = ctx.prog.func(TRACK + '.extract')
-    a, b = f.params[1:3]
-    w = Walker(f, loop_mode='once')
-    outs = [o for o in w.run(body_nodocstring(f), State()) if o.kind == 'return']
-    if not outs:
-        raise shape_error('Track.extract has no return', f.loc())
-    for o in outs:
-        loops = [e for e in o.state.events if e.kind == 'loop']
-        pathtxt = [repr(c) for c, _ in o.state.conds]
-        ok = False
-        wit = {'path conditions': pathtxt}
-        for e in loops:
-            r = e.value.get('range')
-            if r is not None:
-                wit['range'] = [vr(x) for x in r]
-                ok = w.rel.is_zero(r[0] - Rat.atom(a)) and w.rel.is_zero(r[1] - Rat.atom(b) - Rat.const(1)) and vr(r[2]) == '1'
-        adds = [e for e in o.state.events if e.kind == 'call' and e.name == 'addObs']
-        okadd = any('POINTS[' in vr(x.args[0]) for x in adds)
-        if not ok and pathtxt:
-            wit['why'] = 'on this path (e.g. id_fin == 0 when the test is a truthiness test) other observations are copied'
-        ctx.check(ok and okadd, 'C11.X', f,
-                  'extract(id_ini, id_fin) copies exactly the observations id_ini .. id_fin (inclusive), whatever their values',
-                  witness=wit, node=o.node, key='range:' + ';'.join(pathtxt))
-        tr = [e for e in o.state.events if e.kind == 'call' and 'transmitAF' in e.name]
-        ctx.check(len(tr) == 1 and vr(tr[0].args[0]) == 'self', 'C11.X', f, 'the feature table of the source is carried over',
-                  witness={}, node=o.node, key='transmit')
+    fn = absint.funcs(ctx, 'tracklib.core.track')
+    T = absint.classref(ctx, TRACK, fn)
+
+    class O(orders.PyStub):
+        isa = ('Obs',)
+
+        def __init__(self, k):
+            self.k = k
+            self.features = []
+
+        def copy(self):
+            o = O(self.k)
+            o.features = list(self.features)
+            return o
+    bad = None
+    n = 4
+    total = 0
+    try:
+        for a in range(n + 1):
+            for b in range(max(a - 1, 0) if a else 0, n):          # b == a-1: the empty range split() asks for after a marked last observation
+                if b < a - 1:
+                    continue
+                src = T([O(k) for k in range(n)], 'u', 't')
+                src.call('createAnalyticalFeature', 'f', [10 * k for k in range(n)])
+                before = [(o.k, list(o.features)) for o in src.fields['__POINTS']]
+                res = src.call('extract', a, b)
+                total += 1
+                got = [(o.k, list(o.features)) for o in res.fields['__POINTS']] if isinstance(res, orders.Obj) else None
+                want = before[a:b + 1]
+                case = {'extract': [a, b], 'observations returned (index, features)': got, 'expected': want}
+                if got != want:
+                    bad = dict(case, why='extract(id_ini, id_fin) designates the inclusive index range, whatever the values of the bounds (0 included)')
+                elif res.fields.get('__analyticalFeaturesDico') != src.fields.get('__analyticalFeaturesDico'):
+                    bad = dict(case, why='the feature table is not carried over', table=repr(res.fields.get('__analyticalFeaturesDico')))
+                elif res.fields.get('__analyticalFeaturesDico') is src.fields.get('__analyticalFeaturesDico'):
+                    bad = dict(case, why='the result shares the name->column dictionary of the source: creating or deleting a feature on one changes the other')
+                elif [(o.k, list(o.features)) for o in src.fields['__POINTS']] != before:
+                    bad = dict(case, why='the source track is modified')
+                if bad:
+                    break
+            if bad:
+                break
+    except orders.Unsupported as ex:
+        raise shape_error('Track.extract not interpretable: %s' % ex, f.loc())
+    except (IndexError, KeyError, TypeError, AttributeError) as ex:
+        bad = {'exception': '%s: %s' % (type(ex).__name__, ex)}
+    ctx.check(bad is None, rule, f, 'extract(id_ini, id_fin) returns exactly the observations id_ini .. id_fin (inclusive, in order) with a copy of the feature table, source untouched (%d index pairs)' % total,
+              witness=bad, node=f.node, key='extract')
 
 
 RULES = [
@@ -261,4 +282,4 @@ RULES = [
     ('C11.T', rule_T, 'quick'),
     ('C11.X', rule_X, 'quick'),
 ]
-MIN_OBLIGATIONS = 12
+MIN_OBLIGATIONS = 4
